@@ -40,10 +40,9 @@ theorem popped_facts (i1 : Inv1 s) (i4 : Inv4 s) (hp : s.popped > 0) :
 
 set_option maxHeartbeats 2000000 in
 theorem rel_cbRead (hR : R k s g j) (i1 : Inv1 s) (i2 : Inv2 s) (i3 : Inv3 s) (i4 : Inv4 s)
-    (hc : okL s g .cbRead = true) (hs : step Cfg.fixed s .cbRead = some s') :
+    (hs : step Cfg.fixed s .cbRead = some s') :
     R k s' (gStep s g .cbRead) (judgeFrom j (obsX s g .cbRead)) := by
   simp only [obsX, obsOf, obsExtra, gStep, judgeFrom, List.append_nil, List.foldl]
-  simp only [okL, bne_iff_ne, ne_eq] at hc
   have hp : s.popped > 0 := by
     simp only [step] at hs
     split at hs
@@ -58,7 +57,8 @@ theorem rel_cbRead (hR : R k s g j) (i1 : Inv1 s) (i2 : Inv2 s) (i3 : Inv3 s) (i
   have hH := hR.head o ho
   have hj : AioSpec.step j (.cbBegin s.result) =
       { j with reports := j.reports + 1, ops := markReported j.ops j.reports, openCb := j.openCb + 1,
-               lastCb := some s.result } := by
+               lastCb := some s.result,
+               oldCb := j.oldCb + (if (!j.stopCalled || o.retBeforeStop) = true then 1 else 0) } := by
     apply jstep_cbBegin hR.base.err hR.base.nfree s.result o (by rw [pendingOp_newest j hrep, ho])
     · intro x hx; rw [hres]; exact (hH.dec hu f1 x hx).symm
     · intro hr
@@ -94,6 +94,15 @@ theorem rel_cbRead (hR : R k s g j) (i1 : Inv1 s) (i2 : Inv2 s) (i3 : Inv3 s) (i
       · exact Or.inl h
       · exact absurd h.1 hne
   rw [hj, markReported_newest j.ops j.reports hrep.symm]
+  -- a callback that begins after nng_aio_stop's last look at the task is not one the stop waits for
+  have hnew : s.stopPc = 5 → (!j.stopCalled || o.retBeforeStop) = false := by
+    intro hpc
+    have h1 : j.stopCalled = true := hR.base.stopC (Or.inr (Or.inl (by omega)))
+    have h2 : o.retBeforeStop = false := by
+      cases hrb : o.retBeforeStop
+      · rfl
+      · exact absurd hu (hH.win hpc hrb)
+    simp [h1, h2]
   step_cases hs
   all_goals (r_open hR; r_upd ho)
 
@@ -109,7 +118,6 @@ theorem rel_stopRet (hR : R k s g j) (i1 : Inv1 s) (i2 : Inv2 s) (i3 : Inv3 s) (
     split at hs
     · rename_i h; simpa using h
     · cases hs
-  have hcb : j.openCb = 0 := by rw [hR.base.cb]; exact i4.win hpc
   cases hf : s.stopFree with
   | false =>
     left
@@ -124,11 +132,12 @@ theorem rel_stopRet (hR : R k s g j) (i1 : Inv1 s) (i2 : Inv2 s) (i3 : Inv3 s) (
         · subst h
           exact hH.rep1 (hH.win hpc hret)
         · exact hR.tail x (by simp [hj, h])
-    simp only [Bool.false_eq_true, ↓reduceIte, jstep_stopRet hR.base.err hR.base.nfree hcb hr]
+    simp only [Bool.false_eq_true, ↓reduceIte, jstep_stopRet hR.base.err hR.base.nfree (hR.base.old0 hpc) hr]
     step_cases hs
     r_same hR
   | true =>
     right
+    have hcb : j.openCb = 0 := by rw [hR.base.cb]; exact i4.win hpc hf
     simp only [↓reduceIte, jstep_freeRet hR.base.err hR.base.nfree hcb]
     have hfr := i4.pc5Free hpc hf
     obtain ⟨q1, q2, -⟩ := i3.freedQ hfr
